@@ -61,7 +61,10 @@ Definition run_request (now : Z) (b : list (bcfg * bstate (S := stats))) (l : li
   let w0 := fresh_world t0 (match q_ext q with Some (t, e) => Some (t0 + t, e) | None => None end) (q_key q) b l k c (q_script q) in
   let '(r, w1) := execute (fuel_of q) (q_stack q) w0 in
   let o := if q_run q then (0, pr_err r) else pr_out r in
-  ({| x_out := o; x_start := t0; x_end := w_now w1; x_events := filter (lsn_keeps (q_lsn q)) (rev (w_trace w1)); x_state := pub_state w1 |}, w1).
+  (* hedge attempts still running go on to their end before the next request starts; their events are part of the log *)
+  let w2 := drain w1 in
+  let w3 := if hedge_innermost (q_stack q) then w2 else set_oof w2 in
+  ({| x_out := o; x_start := t0; x_end := w_now w1; x_events := filter (lsn_keeps (q_lsn q)) (rev (w_trace w3)); x_state := pub_state w3 |}, w3).
 
 Fixpoint any_flagged (now : Z) (b : list (bcfg * bstate (S := stats))) (l : list (lcfg * Z * lstate))
     (k : list (Z * Z)) (c : list (list (Z * Z))) (qs : list request) : bool :=
@@ -91,7 +94,7 @@ Definition evk_code (k : evk) : Z :=
   | KFnStart => 0 | KFnEnd => 1 | KRetryScheduled => 2 | KRetry => 3 | KRetriesExceeded => 4 | KAbort => 5
   | KPolSuccess => 6 | KPolFailure => 7 | KTimeoutExceeded => 8 | KFallbackExecuted => 9
   | KCacheHit => 10 | KCacheMiss => 11 | KCached => 12 | KRateExceeded => 13 | KFull => 14 | KBreaker => 15
-  | KExecSuccess => 16 | KExecFailure => 17 | KExecDone => 18
+  | KExecSuccess => 16 | KExecFailure => 17 | KExecDone => 18 | KHedge => 19
   end.
 
 Definition is_fn_event (e : event) : bool := match e_kind e with KFnStart | KFnEnd => true | _ => false end.
@@ -100,14 +103,15 @@ Definition is_fn_event (e : event) : bool := match e_kind e with KFnStart | KFnE
    harness cannot read the counters inside it, so they are not compared there;
    breaker state-change events carry no execution *)
 Definition event_eqb (withexec : bool) (a b : event) : bool :=
-  (evk_code (e_kind a) =? evk_code (e_kind b)) && Nat.eqb (e_pos a) (e_pos b) && (e_time a =? e_time b) && (e_aux a =? e_aux b)
+  (evk_code (e_kind a) =? evk_code (e_kind b)) && Nat.eqb (e_pos a) (e_pos b) && (e_time a =? e_time b)
+  && ((negb withexec && is_fn_event a) (* IsHedge cannot be read without an Execution *) || (e_aux a =? e_aux b))
   && (match e_kind a with
       | KBreaker => true
       | KFnStart | KFnEnd =>
-          if withexec then (e_attempts a =? e_attempts b) && (e_retries a =? e_retries b) && (e_executions a =? e_executions b)
+          if withexec then (e_attempts a =? e_attempts b) && (e_retries a =? e_retries b) && (e_hedges a =? e_hedges b) && (e_executions a =? e_executions b)
                            && outcome_eqb (e_out a) (e_out b)
           else match e_kind a with KFnEnd => outcome_eqb (e_out a) (e_out b) | _ => true end
-      | _ => (e_attempts a =? e_attempts b) && (e_retries a =? e_retries b) && (e_executions a =? e_executions b)
+      | _ => (e_attempts a =? e_attempts b) && (e_retries a =? e_retries b) && (e_hedges a =? e_hedges b) && (e_executions a =? e_executions b)
              && outcome_eqb (e_out a) (e_out b)
       end).
 
